@@ -150,7 +150,7 @@ theorem scanTag_inv (n0 : Namer) (seen : List Str) (st st' : Namer × TagScan) (
     refine ⟨g, ?_, nr', hp, ?_, tg'⟩
     · simp only; constructor
       · intro _; exact (mem_snoc _).2 (Or.inr this.symm)
-      · intro _; rfl
+      · intro _; first | rfl | trivial
     · intro hall; exact hf (fun x hx => hall x ((mem_snoc x).2 (Or.inl hx)))
   all_goals
     have hnp : t ≠ sPainted := by
@@ -266,14 +266,17 @@ theorem makeScaffoldName_facts (n n' : Namer) (scName : Str) (rows : List Row) (
   obtain ⟨g2, hhap, t2, hfree⟩ := k2
   -- primary stage
   have k3 : NamerGood n3 ∧ n3.targetTags = n2.targetTags := by
+    simp only at h3
     unfold C17.primStage at h3
-    split at h3
-    · split at h3
-      · rename_i h0
+    by_cases hc : (s.primaryTag = true ∧ ¬truthy n2.primaryHaplotype = true)
+    · rw [if_pos hc] at h3
+      cases hap with
+      | none => cases h3
+      | some h0 =>
+        simp only at h3
         split at h3
         · cases h3
-        · rename_i hne0
-          cases h3
+        · cases h3
           have hw : HapWordOk h0 := by
             rcases hhap with e | ⟨x, e, hx⟩
             · cases e
@@ -283,8 +286,8 @@ theorem makeScaffoldName_facts (n n' : Namer) (scName : Str) (rows : List Row) (
           intro v hv
           simp only [Option.some.injEq] at hv
           subst hv; exact q2
-      · cases h3
-    · cases h3; exact ⟨g2, rfl⟩
+    · rw [if_neg hc] at h3
+      cases h3; exact ⟨g2, rfl⟩
   obtain ⟨g3, t3⟩ := k3
   -- the current haplotype
   have hcur : HapOk (C17.finishName n3 hap p).currentHaplotype ∧
